@@ -459,7 +459,7 @@ func main() {
 				a = append(a, "-only", only)
 			}
 			cmd := exec.Command(bin, a...)
-			cmd.Env = append(os.Environ(), fmt.Sprintf("GOMAXPROCS=%d", def.MaxProcs), "GOMEMLIMIT=3GiB")
+			cmd.Env = append(os.Environ(), fmt.Sprintf("GOMAXPROCS=%d", def.MaxProcs), "GOMEMLIMIT=3GiB", "GOGC=400")
 			var buf bytes.Buffer
 			cmd.Stdout, cmd.Stderr = &buf, &buf
 			done := make(chan error, 1)
